@@ -55,6 +55,9 @@ type Input struct {
 	Lookups []Lookup        `json:"lookups"`
 	Cred    *credgen.Spec   `json:"cred,omitempty"`
 	InModel bool            `json:"in_model"` // the claim is also evaluated in the Coq model
+	// Mode: "" | "ipfs-client" | "ipfs-gateway": how the MerklizerOpts of the claim-building call reach the
+	// contexts (credgen.Env.Mode); in the IPFS modes the credential lists ipfs:// addresses (Cred.CtxIPFS)
+	Mode string `json:"mode,omitempty"`
 	// ClaimError: the credential does not say which type it has (no credentialSubject.type and a
 	// top-level type array that is not a pair containing VerifiableCredential): no claim may be built
 	ClaimError bool `json:"claim_error,omitempty"`
@@ -269,9 +272,15 @@ func (g *gen) run(in *Input) (out outcome) {
 		if err != nil {
 			panic(err)
 		}
-		v := g.env.ViewOf(&c.VC, append(credgen.FieldPaths(), "spare", "nosuch"))
+		env := g.env
+		if in.Mode != "" {
+			env = g.env.WithMode(in.Mode)
+			urls := append([]string{"https://www.w3.org/2018/credentials/v1", in.Schema.URL}, in.Cred.PreCtx...)
+			g.env.ServeIPFS(append(urls, in.Cred.ExtraCtx...)...)
+		}
+		v := env.ViewOf(&c.VC, append(credgen.FieldPaths(), "spare", "nosuch"))
 		out.view = &v
-		co := buildClaim(&c.VC, g.env.Real(credgen.Opts{}))
+		co := buildClaim(&c.VC, env.Real(credgen.Opts{}))
 		out.claim = &co
 		out.evals++
 		out.counts = append(out.counts, "claim:"+in.Kind+":"+co.class)
@@ -443,6 +452,20 @@ func (g *gen) assignments() {
 						}
 					}
 					g.ins = append(g.ins, in)
+					// contexts that are ipfs:// objects, reachable only through the IPFS client / gateway the
+					// MerklizerOpts configure (no document loader in the options)
+					if n%8 == 3 {
+						for k, mode := range []string{"ipfs-client", "ipfs-gateway"} {
+							if k == 1 && n%16 != 3 {
+								continue
+							}
+							sp3 := credgen.Spec{Schema: s, CtxIPFS: true}
+							if n%3 == 0 {
+								sp3.Subject = did
+							}
+							g.ins = append(g.ins, &Input{Kind: kind, Asg: asg, Schema: s, Mode: mode, Lookups: lookupsFor(s, fields[:5], false), Cred: &sp3, InModel: n%32 == 3 || g.cfg.Thorough()})
+						}
+					}
 					// where the credential says its type: credentialSubject.type absent / present x the
 					// top-level pair in both orders; three types / no VerifiableCredential: no claim
 					if n%6 == 0 {
@@ -1060,9 +1083,10 @@ func (g *gen) writeShards() error {
 func Run(cfg *common.Config) (*common.Report, error) {
 	rep := common.NewReport("C17")
 	rep.Correspondence = "Claim.Run.lmismatches / hmismatches / amismatches / fmismatches: get_field_slot_index, parser_parse_claim and the facade (Claim/Model.v) vs json.Parser.GetFieldSlotIndex / ParseClaim and processor.Processor; to_core_claim vs W3CCredential.ToCoreClaim on a credential of each type; and the model's own lookup against the model's own claim on the recorded field encodings"
-	rep.Rule = "ALL 6^4 = 1296 assignments of the four data slots to {none, price, count, name, info.insured, info.since}; per assignment: lookups of the five fields, an unnamed field and the empty string by type name and by type IRI, an unknown type, the processor facade with and without parser, and the claim of a credential of that type (subject id / expiration varied; for every 6th assignment also credentials without credentialSubject.type whose top-level type pair is written in both orders, and with three types / without VerifiableCredential: no claim); plus reordered and repeated parts, absent designated fields, 32 malformed attributes (a second '=' in a part in every position, a lost '&', empty key, doubled / trailing '='), non-string attribute, no attribute, array-shaped scoped context, sibling types sorting before/after (30 repetitions), 13 bad schema documents, stub components behind the facade (results and the options object passed through, field by field); ParseClaim through the facade vs the parser called directly for every option field and three sets of merklizer options (a loader that alone resolves the contexts, + custom hasher, + safe mode off); for every 9th assignment a claim is first built with a second document loader that serves another schema document (merklized / the assignment read backwards) at the same URL and type. distinct = distinct (schema, lookups, credential) inputs; all are non-trivial (each reaches the attribute parser or one of the documented error points)."
+	rep.Rule = "ALL 6^4 = 1296 assignments of the four data slots to {none, price, count, name, info.insured, info.since}; per assignment: lookups of the five fields, an unnamed field and the empty string by type name and by type IRI, an unknown type, the processor facade with and without parser, and the claim of a credential of that type (subject id / expiration varied; for every 8th assignment the credential's contexts are ipfs:// objects resolvable only through WithIPFSClient / WithIPFSGateway in the options; for every 6th assignment also credentials without credentialSubject.type whose top-level type pair is written in both orders, and with three types / without VerifiableCredential: no claim); plus reordered and repeated parts, absent designated fields, 32 malformed attributes (a second '=' in a part in every position, a lost '&', empty key, doubled / trailing '='), non-string attribute, no attribute, array-shaped scoped context, sibling types sorting before/after (30 repetitions), 13 bad schema documents, stub components behind the facade (results and the options object passed through, field by field); ParseClaim through the facade vs the parser called directly for every option field and three sets of merklizer options (a loader that alone resolves the contexts, + custom hasher, + safe mode off); for every 9th assignment a claim is first built with a second document loader that serves another schema document (merklized / the assignment read backwards) at the same URL and type. distinct = distinct (schema, lookups, credential) inputs; all are non-trivial (each reaches the attribute parser or one of the documented error points)."
 	g := &gen{cfg: cfg, rep: rep, env: credgen.NewEnv(), env2: credgen.NewEnv()}
 	merklize.SetDocumentLoader(g.env.Loader)
+	credgen.InstallGateway(g.env)
 	if cfg.Replay != "" {
 		return replay(cfg, g)
 	}
